@@ -60,3 +60,18 @@ ex['note'] = 'per function: attribute names, variable reads, simple statements, 
 json.dump(ex, open(os.path.join(HERE, 'reference', 'expressions.json'), 'w'), indent=0,
           sort_keys=True)
 print(len(ex['functions']), 'function fingerprints')
+
+# call conditions of every function (stonelint/conddrift.py, run_calls)
+cc = conddrift.call_conditions(pm1, allf)
+d = json.load(open(cpath))
+d['calls'] = cc
+json.dump(d, open(cpath, 'w'), indent=0, sort_keys=True)
+print(len(cc), 'functions with tracked calls,', sum(len(v) for v in cc.values()), 'call texts')
+
+# memo tables / done-sets of every function (stonelint/memo.py)
+from stonelint import memo
+inv = memo.inventory(pm1, allf)
+d = json.load(open(cpath))
+d['memo'] = inv
+json.dump(d, open(cpath, 'w'), indent=0, sort_keys=True)
+print(len(inv), 'functions with memo tables / registries')
